@@ -17,7 +17,7 @@ SPEC = dict(
     quick_s=40, thorough_s=400,
     rule=("one run = one tape: stratum drawn first (sequential 3 : concurrent 2); configuration low 1-4, high low..low+4, grace "
           "0/10s/20s/1min, silence 5/10/30s, decayer resolution 10s/30s/1min, 2-8 peers over 1-3 manager segments, 0-2 decaying "
-          "tags with harness decay/bump functions; sequential: 20-80 operations (Connected incl. several per peer and duplicates, "
+          "tags whose decay/bump functions are the exported presets (DecayFixed, DecayLinear, DecayNone, DecayExpireWhenInactive, BumpSumUnbounded/Bounded, BumpOverwrite) or harness ones, several of which remove a tag while returning a non-zero value; bump deltas -2..6; sequential: 20-80 operations (Connected incl. several per peer and duplicates, "
           "Disconnected incl. duplicates and never-connected, TagPeer/UntagPeer/UpsertTag, Bump/Remove, Protect/Unprotect/IsProtected "
           "with 3 tags, sleeps across grace/silence/resolution, TrimOpenConns, ForceTrim, GetInfo, CheckLimit) each followed by a "
           "model comparison at quiescence; concurrent: sequential prefix of 5-30 operations, then 2-4 tasks with 5-20 operations "
@@ -30,7 +30,7 @@ SPEC = dict(
             "trim-with-peer-in-grace-above-low", "multi-conn-peer-closed", "closed-again-while-still-tracked",
             "background-trim-closed", "forced-trim-closed-protected", "forcetrim-left-above-low-overall",
             "value-order-compared", "left-bound-checked", "overlapping-trims", "operations-overlapping-a-trim",
-            "duplicate-connected", "duplicate-disconnected", "sync-delivery", "bump-applied", "decay-tick-applied",
+            "duplicate-connected", "duplicate-disconnected", "sync-delivery", "bump-applied", "decay-tick-applied", "decay-removed-with-nonzero-after",
             "early-tag-entry-dropped", "order-dependent-overlap", "resync-after-order-dependent-overlap", "sampled-peer-check"],
     real=["p2p/net/connmgr (instrumented: sync->simsync, go->simrt.Go, select, map ranges): BasicConnMgr, decayer, background trim loop",
           "benbjohnson/clock.New() on the synctest bubble clock"],
